@@ -5,6 +5,7 @@
   `parseDecimal`: mantissa and scale as written) and is tied to the code by the correspondence run.
 -/
 import RevalModel.Lemmas.Literals
+import RevalModel.Lemmas.LexLayout
 
 namespace Reval.C08
 open Disp
@@ -96,6 +97,50 @@ theorem layout_skipped (c : Char) (cs : Str) (hc : Str.isWhite c = true) :
   · unfold Lex.step
     have : Str.isWhite '/' = false := by decide
     simp [this]
+
+/-- **layout is insignificant** (Lemmas/LexLayout.lean): a leading gap, then tokens — keywords, identifiers, INDEX numbers,
+    integer / decimal / string literals as written by the printer, punctuation and operators — each followed by any gap
+    (any sequence of White_Space characters and `//` comments ended by any run of line ends; non-empty between two
+    tokens): the text lexes to exactly those tokens.  Two exclusions are in the hypotheses because the lexer really has
+    them: a `/` token directly followed by a comment (`///…` is one comment; known finding), and tokens with no gap
+    between them (another matter: which tokens may touch). -/
+theorem layout_insignificant (lead : List LexC.Piece) (items : List (Tok × Str × List LexC.Piece))
+    (hl : ∀ p ∈ lead, p.OK) (h : LexC.GappedOK items) :
+    lex (LexC.gapText lead ++ LexC.gapped items) = some (items.map (·.1)) := LexC.lex_gapped lead items hl h
+
+/-- hence the amount and kind of layout never changes the parsed tree: two texts with the same tokens and different
+    gaps parse to the same result -/
+theorem layout_same_tree (o : Oracle) (lead lead' : List LexC.Piece) (items items' : List (Tok × Str × List LexC.Piece))
+    (hl : ∀ p ∈ lead, p.OK) (hl' : ∀ p ∈ lead', p.OK) (h : LexC.GappedOK items) (h' : LexC.GappedOK items')
+    (same : items.map (·.1) = items'.map (·.1)) :
+    parseExprText o (LexC.gapText lead ++ LexC.gapped items) = parseExprText o (LexC.gapText lead' ++ LexC.gapped items') := by
+  simp only [parseExprText, layout_insignificant lead items hl h, layout_insignificant lead' items' hl' h', same]
+
+/-- the exclusion is real (the recorded known finding): a comment directly after `/` swallows the operator -/
+theorem slash_then_comment_is_one_comment :
+    lex "a///c\nb".toList = some [.ident ['a'], .ident ['b']] ∧
+    lex "a/ //c\nb".toList = some [.ident ['a'], .p ['/'], .ident ['b']] := by
+  constructor <;> decide +kernel
+
+/-- non-vacuity: `a` TAB `//x` CR LF NBSP `+` U+3000 `b`, with a leading comment -/
+example : LexC.GappedOK
+    [(.ident ['a'], ['a'], [.white '\t', .comment ['x'] ['\r', '\n'], .white '\u00a0']),
+     (.p ['+'], ['+'], [.white '\u3000']), (.ident ['b'], ['b'], [])] := by
+  have ha : LexC.NameOK ['a'] := ⟨'a', [], rfl, by decide, by decide, (by intro _ a r e; cases e), by decide⟩
+  have hb : LexC.NameOK ['b'] := ⟨'b', [], rfl, by decide, by decide, (by intro _ a r e; cases e), by decide⟩
+  refine ⟨.ident _ ha, ?_, ?_, by simp, .p1 '+' (by decide), ?_, ?_, by simp, .ident _ hb, by simp, ?_, by simp, trivial⟩
+  · intro p hp
+    simp only [List.mem_cons, List.not_mem_nil, or_false] at hp
+    rcases hp with rfl | rfl | rfl
+    · exact (by decide : Str.isWhite '\t' = true)
+    · exact ⟨by decide, by simp, by decide⟩
+    · exact (by decide : Str.isWhite '\u00a0' = true)
+  · intro e; cases e
+  · intro p hp
+    simp only [List.mem_cons, List.not_mem_nil, or_false] at hp
+    subst hp; exact (by decide : Str.isWhite '\u3000' = true)
+  · intro e; cases e
+  · intro e; cases e
 
 /-! tests (concrete texts, evaluated by the kernel): the collision list of the property -/
 def toks (s : String) : Option (List Tok) := lex s.toList
